@@ -61,7 +61,7 @@ def bytes_summaries():
             return f
         return deco
 
-    @reg(r'^Vec::<u8>::new$')
+    @reg(r'^Vec::<u8>::new$|^<Vec<u8> as Default>::default$')
     def v_new(ex, st, fn, argv):
         return [(st, ByteVec('new'))]
 
@@ -127,6 +127,74 @@ def bytes_summaries():
                 vv.abs = vv.abs + c[1].bv
                 vv.len = vv.len - c[1].bv
                 outs.append((s, Unit()))
+        return outs
+
+    @reg(r'^Vec::<u8>::drain::<(std::ops::)?RangeTo<usize>>$')
+    def v_drain_to(ex, st, fn, argv):
+        v = as_bytes(ex, st, argv[0])
+        end = argv[1].fields[0]
+        outs = []
+        for (s, c, bad) in ex.fork_on(st, z3.UGT(end.bv, v.len), (argv[0], end)):
+            if bad:
+                outs.append((s, Panic('range end index out of range for Vec::drain')))
+            else:
+                vv = as_bytes(ex, s, c[0])
+                vv.abs = vv.abs + c[1].bv
+                vv.len = vv.len - c[1].bv
+                outs.append((s, Unit()))
+        return outs
+
+    @reg(r'^Vec::<u8>::split_off$')
+    def v_split_off(ex, st, fn, argv):
+        v = as_bytes(ex, st, argv[0])
+        at = argv[1]
+        outs = []
+        for (s, c, bad) in ex.fork_on(st, z3.UGT(at.bv, v.len), (argv[0], at)):
+            if bad:
+                outs.append((s, Panic('`at` split index out of bounds (Vec::split_off)')))
+            else:
+                vv = as_bytes(ex, s, c[0])
+                tail = ByteVec(vv.name, vv.len - c[1].bv, [dict(it) for it in vv.items], vv.abs + c[1].bv)
+                vv.len = c[1].bv
+                outs.append((s, tail))
+        return outs
+
+    @reg(r'^Vec::<u8>::truncate$')
+    def v_truncate(ex, st, fn, argv):
+        v = as_bytes(ex, st, argv[0])
+        v.len = z3.If(z3.ULT(argv[1].bv, v.len), argv[1].bv, v.len)
+        return [(st, Unit())]
+
+    @reg(r'^Vec::<u8>::extend_from_slice$')
+    def v_extend_from_slice(ex, st, fn, argv):
+        a, b = as_bytes(ex, st, argv[0]), as_bytes(ex, st, argv[1])
+        base = b if isinstance(b, ByteVec) else b.base
+        start = b.abs if isinstance(b, ByteVec) else b.abs_start
+        whole = isinstance(base, ByteVec) and z3.is_true(z3.simplify(z3.And(start == base.abs, b.len == base.len)))
+        if whole:
+            for it in base.items:
+                it2 = dict(it)
+                it2['pos'] = a.abs + a.len + (it['pos'] - base.abs)
+                a.items.append(it2)
+        else:
+            a.items.append({'kind': 'copy', 'pos': a.abs + a.len, 'len': b.len, 'src': b.name, 'src_off': start})
+        a.len = a.len + b.len
+        return [(st, Unit())]
+
+    @reg(r'^(core|std)::slice::<impl \[u8\]>::split_at$')
+    def s_split_at(ex, st, fn, argv):
+        v = as_bytes(ex, st, argv[0])
+        mid = argv[1]
+        outs = []
+        for (s, c, bad) in ex.fork_on(st, z3.UGT(mid.bv, v.len), (argv[0], mid)):
+            if bad:
+                outs.append((s, Panic('mid > len (slice::split_at)')))
+            else:
+                vv = as_bytes(ex, s, c[0])
+                base, start = (vv, vv.abs) if isinstance(vv, ByteVec) else (vv.base, vv.abs_start)
+                left = Ref(Cell(SliceVal(base, start, c[1].bv, vv.name), 'slice'))
+                right = Ref(Cell(SliceVal(base, start + c[1].bv, vv.len - c[1].bv, vv.name), 'slice'))
+                outs.append((s, Agg({0: left, 1: right}, 'tuple')))
         return outs
 
     @reg(r'^<Vec<u8> as Index<(std::ops::)?RangeFrom<usize>>>::index$|^<\[u8\] as Index<(std::ops::)?RangeFrom<usize>>>::index$|^core::slice::index::<impl Index<(std::ops::)?RangeFrom<usize>> for \[u8\]>::index$')
@@ -386,10 +454,31 @@ class World:
 
     def __init__(self):
         self.slots = {}    # name -> dict(id=z3 bv16, reply=Chan, rx=Chan(mio), consumers={tagname: (Str, Chan)}, ret=Chan|None, conf=Chan|None)
-        self.outbuf = None
+        self._outbuf = None
+        self._ob_path = None   # field indexes Inner -> outbuf -> buf -> Vec: the buffer is looked up afresh (code may replace the Vec)
         self.inner = None
         self.state = None
         self.ch0 = None
+
+
+def _world_get_outbuf(self):
+    if self.inner is not None and self._ob_path is not None:
+        v = self.inner.value
+        try:
+            for i in self._ob_path:
+                v = v.fields[i]
+            if isinstance(v, ByteVec):
+                return v
+        except (AttributeError, KeyError):
+            pass
+    return self._outbuf
+
+
+def _world_set_outbuf(self, v):
+    self._outbuf = v
+
+
+World.outbuf = property(_world_get_outbuf, _world_set_outbuf)
 
 
 def mk_slot(w, name, chan_id, consumers=1, reply_prefill=0, ret='some', conf='some', collector=None):
@@ -470,6 +559,7 @@ def build_steady(prog, chans, ch0_reply_prefill=0, sealed=False, outbuf_len=None
     st.pc.append(z3.ULE(ob_len, b64(1 << 40)))
     ob = ByteVec('outbuf', ob_len, [{'kind': 'earlier', 'pos': b64(0), 'len': ob_len}])
     w.outbuf = ob
+    w._ob_path = (prog.types.fields('io_loop::Inner').index('outbuf'), prog.types.fields('SealableOutputBuffer').index('buf'), 0)
     sealed_b = Bool(sealed) if isinstance(sealed, bool) else Bool(sealed)
     outbuf = mk_struct(prog, 'SealableOutputBuffer', buf=Agg({0: ob}, 'OutputBuffer'), sealed=sealed_b)
     cmax = sym('channel_max', z3.BitVecSort(16)) if channel_max is None else channel_max
